@@ -83,6 +83,8 @@ def case_st(draw):
         'steps': steps,
         # earlier connections of the same client object (what a reconnecting application does),
         # each ended in the drawn way before the judged connection is made
+        # messages the server's connect handler sends: they travel with the OPEN packet
+        'server_greets': draw(st.sampled_from([0, 0, 0, 1, 2, 3])),
         'prelude': draw(st.sampled_from([[], [], [], ['cdisc'], ['sdisc'], ['drop'],
                                          ['drop', 'cdisc'], ['sdisc', 'drop']])),
     }
@@ -106,6 +108,8 @@ def check_case(case, ctx=None):
     ftrig = '+'.join(sorted('%s:%s' % (f['on'], f['kind']) for f in case['faults'])) or 'no-fault'
     try:
         pre = run_prelude(h, case)
+        greets = ['greet%d' % k for k in range(case.get('server_greets', 0))]
+        h.world.app_log.connect_sends = list(greets)
         c = h.client_call('connect', case['url'], transports=case['transports'],
                           engineio_path=case['path'])
         h.run_until(lambda: c.done, 40)
@@ -132,7 +136,7 @@ def check_case(case, ctx=None):
         if not case['faults'] and cl.transport() != ('websocket' if want_ws else 'polling'):
             raise V(impl, 'wrong-transport', str(case['transports']),
                     'transport %r' % cl.transport(), rep)
-        csent, ssent = [], []
+        csent, ssent = [], list(greets)
         for stp in case['steps']:
             if stp['do'] == 'csend':
                 d = rm.untag(stp['data'])
